@@ -64,6 +64,14 @@ pub fn gen(ctx: &Ctx, rng: &mut Rng, out: &mut Vec<String>) {
         // rejected targets
         let mut big = s.clone(); let ax = rng.below(d as u64) as usize; big[ax] += 1;
         out.push(format!("c03.project\t{}\t{}\t{}", nats(s), bits(&data), nats(&big)));
+        // larger in one axis only — every axis in turn, the others smaller or equal (a whole-vector comparison would accept some)
+        if d > 1 {
+            for ax2 in 0..d {
+                let mut mixed: Vec<usize> = s.iter().map(|v| if *v > 1 { v - 1 } else { *v }).collect();
+                mixed[ax2] = s[ax2] + 1 + rng.below(3) as usize;
+                out.push(format!("c03.project\t{}\t{}\t{}", nats(s), bits(&data), nats(&mixed)));
+            }
+        }
         let mut zero = s.clone(); zero[ax] = 0;
         out.push(format!("c03.project\t{}\t{}\t{}", nats(s), bits(&data), nats(&zero)));
         let mut longer = s.clone(); longer.push(1);
